@@ -114,6 +114,12 @@ func Run(r *mc.Run) {
 	r.Rule = "all token sequences up to the length bound over 24 tokens (fixpoint law on every accepted one); all architecture names of 1..3 components over 8 component values plus 4-part and empty-component names; non-trivial = accepted by the parser; distinct by construction"
 	r.Assume = []string{"structural identity is strict (same number of relations and alternatives; nil and empty slices identified)", "tokens/lengths beyond the bound are not explored"}
 	L := r.Pick(5, 6)
+	// alphabet audit: literals a change introduced into the code become tokens (then with one token less, to bound the cost)
+	tokens := tokens
+	if extra := append(gen.AuditStrings(gen.OneLine, 4), gen.AuditChars(nil, 3)...); len(extra) > 0 {
+		tokens = gen.Dedup(append(append([]string{}, tokens...), extra...))
+		L--
+	}
 	nt := len(tokens)
 	r.Scenario("token-sequences-fixpoint", map[string]interface{}{"tokens": tokens, "max_tokens": L}, nt*nt+1, func(sh int, st *mc.Stats) bool {
 		visit := func(s string) bool {
@@ -202,7 +208,7 @@ func Run(r *mc.Run) {
 	})
 
 	// architecture names
-	comps := []string{"any", "all", "linux", "gnu", "musl", "kfreebsd", "amd64", "x"}
+	comps := append([]string{"any", "all", "linux", "gnu", "musl", "kfreebsd", "amd64", "x"}, gen.AuditStrings(func(s string) bool { return gen.Nameish(s) && !strings.Contains(s, "-") }, 3)...)
 	var names []string
 	for _, a := range comps {
 		names = append(names, a)
